@@ -45,7 +45,15 @@ def children():
         c.add("o", "buf", fanin="i", output=True)
         return c
 
-    return {"ha": ha, "inv": inv, "clash": clash}
+    def nested():
+        c = cg.Circuit("nested")
+        c.add("i", "input")
+        c.add("m", "buf")
+        c.add_blackbox(cg.BlackBox("inner", ["p"], ["q"]), "r", {"p": "i", "q": "m"})
+        c.add("o", "not", fanin="m", output=True)
+        return c
+
+    return {"ha": ha, "inv": inv, "clash": clash, "nested": nested}
 
 
 def menu(ctx):
@@ -88,13 +96,17 @@ def menu(ctx):
         for name in ("u", "a"):
             for conn in (None, {"x": "a", "s": "b"}, {"i": "a", "o": "b"}, {"i": "zz"}, {"nope": "a"}, {"o": "bb.i", "i": "bb.o"}):
                 ops.append(("add_subcircuit", ch, name, conn))
-    for ch in ("inv", "ha", "clash"):
+    for ch in ("inv", "ha", "clash", "nested"):
         for name in ("bb", "nb"):
             ops.append(("fill_blackbox", name, ch))
+    ops.append(("add_subcircuit", "nested", "bb", None))
+    ops.append(("add_subcircuit", "nested", "u", {"i": "a", "o": "b"}))
     out = []
     for op in ops:
         for reg in (False, True):
             out.append(((repr(op), reg), (op, reg)))
+        if op[0] in ("fill_blackbox", "add_subcircuit") and "nested" in op:
+            out.append(((repr(op), "reg+bb_r"), (op, "bb_r")))  # the parent already records an instance named bb_r
     return out
 
 
@@ -138,6 +150,8 @@ def run(ctx):
         pre = sg.base_pre(vars_)
         pre.append(specs.legal_wiring(U, A.present, A.typ, A.edge))
         bbs = {"bb": (["i"], ["o"])} if reg else {}
+        if reg == "bb_r":
+            bbs["bb_r"] = ([], [])  # a pin-less instance whose name clashes with <name>_<nested instance>
         if reg:
             pre.append(specs.pins_ok(bbs, A.present, A.typ))
         f = make_op(op, kids)
@@ -164,6 +178,12 @@ def run(ctx):
                     keep.append(z3.Not(pre_.present(out.ret)) if isinstance(out.ret, str) else z3.BoolVal(False))
                 res.append(("uid-fresh", z3.And(keep), "api:add-uid-overwrites", f"add(uid=True) returned {out.ret!r}: an existing node was overwritten / renamed / rewired"))
             registry = {k: (sorted(b.inputs()), sorted(b.outputs())) for k, b in c.blackboxes.items()}
+            if out.kind == "raise":
+                pre_reg = {"bb": (["i"], ["o"])} if reg else {}
+                if reg == "bb_r":
+                    pre_reg["bb_r"] = ([], [])
+                res.append(("rejected-keeps-registry", z3.BoolVal(registry == {k_: (sorted(v_[0]), sorted(v_[1])) for k_, v_ in pre_reg.items()}), f"api:{op[0]}:rejected-call-changed-registry",
+                            f"{op[0]}{op[1:]} raised {out.exc} but changed the blackbox registry to {sorted(registry)}"))
             if reg or op[0] in ("add_blackbox", "add_blackbox_dup_pin", "add_subcircuit", "fill_blackbox"):
                 res.append(("pins", specs.pins_ok(registry, post.present, post.typ, exempt=removed_by_caller), f"api:{op[0]}:registry-pins", f"after {op[0]}{op[1:]} ({out.kind}) a recorded blackbox instance lacks a pin node of the right type (registry {sorted(registry)})"))
             return res
